@@ -140,6 +140,7 @@ type FnCtx struct {
 	calledPairs map[[2]string]bool
 	eptr        map[string]types.Type // element sorts for which pointers to slice elements are created in this function
 	eptrLeaked  map[string]bool
+	splitSpec   bool // a contract of this function uses splitCount/splitPart: strings.Split gets its axiomatic model
 	staleGuards map[string]string // guard clauses that could not be elaborated at some site (clause -> message)
 	defineDepth int
 	defInfos    map[string]*defineInfo
@@ -494,7 +495,7 @@ func (fc *FnCtx) merge(preds []*State, hint string) *State {
 	}
 	res := &State{reach: tb.Or(conds...), cells: map[*ssa.Alloc]*Term{}, heap: map[string]*Term{}}
 	// cells present in all preds
-	for a := range preds[0].cells {
+	for _, a := range sortedAllocs(preds[0].cells) {
 		ok := true
 		for _, p := range preds[1:] {
 			if _, has := p.cells[a]; !has {
@@ -517,7 +518,7 @@ func (fc *FnCtx) merge(preds []*State, hint string) *State {
 			keys[k] = true
 		}
 	}
-	for k := range keys {
+	for _, k := range sortedStrs(keys) {
 		srt := fc.keySort[k]
 		v := fc.heapGet(preds[len(preds)-1], k, srt)
 		for i := len(preds) - 2; i >= 0; i-- {
@@ -549,7 +550,7 @@ func (fc *FnCtx) enterLoop(li *loopInfo, in *State) *State {
 		fc.unsup("loop in pure function")
 	}
 	hs := in.clone()
-	for a := range li.modCells {
+	for _, a := range sortedAllocs(li.modCells) {
 		if old, ok := hs.cells[a]; ok {
 			nv := tb.Fresh(fmt.Sprintf("L%d!%s", li.ordinal, cellName(a)), old.Sort)
 			hs.cells[a] = nv
@@ -672,7 +673,8 @@ func (fc *FnCtx) finish() {
 	}
 	// final values of named non-escaping locals (zero where not yet declared)
 	fc.finalVals = map[string]envVar{}
-	for name, allocs := range fc.cellNames {
+	for _, name := range sortedStrs(fc.cellNames) {
+		allocs := fc.cellNames[name]
 		if len(allocs) != 1 {
 			continue
 		}
@@ -801,4 +803,29 @@ func (fc *FnCtx) guardGoal(env *Env, c *Clause) (goal *Term) {
 		}
 	}()
 	return fc.transBool(env, c)
+}
+
+// sortedAllocs / sortedStrs: deterministic iteration orders (VC text and hashes must not depend on Go's
+// map iteration order)
+func sortedAllocs[V any](m map[*ssa.Alloc]V) []*ssa.Alloc {
+	out := make([]*ssa.Alloc, 0, len(m))
+	for a := range m {
+		out = append(out, a)
+	}
+	sort.Slice(out, func(i, j int) bool {
+		if out[i].Pos() != out[j].Pos() {
+			return out[i].Pos() < out[j].Pos()
+		}
+		return out[i].Name() < out[j].Name()
+	})
+	return out
+}
+
+func sortedStrs[V any](m map[string]V) []string {
+	out := make([]string, 0, len(m))
+	for k := range m {
+		out = append(out, k)
+	}
+	sort.Strings(out)
+	return out
 }
